@@ -475,3 +475,45 @@ func c01TxSetBytesModel(msg *wire.MsgTx, bs []byte, mode wire.CodecMode) error {
 	*msg = *c01TxBytesReg[bs[1]]
 	return nil
 }
+
+// VerifC01StaleTip: a tip notification that was queued before the node reorganised: the wallet is at A, the node's
+// best chain is A,N1 and the notification handled now is for O1, another child of A that is no longer on the best
+// chain. The real processConnectedBlock refuses it (the node's block at that height is not the announced one) and
+// changes nothing; the notification for N1 that follows is accepted.
+func VerifC01StaleTip() {
+	st := txmgr.VerifNewStoresWithKeystoreManager([]byte("DJr6BomK"))
+	node := &c01Node{}
+	w := &WalletManager{config: &config.Config{Wallet: config.NewDefWalletConfig()}, db: st.DB, chainParams: config.ChainParams,
+		ksmgr: st.Ks, bucketMeta: st.Meta, utxoStore: st.Utxo, txStore: st.Tx, syncStore: st.Sync, chainFetcher: node}
+	h := &NtfnsHandler{walletMgr: w, mempool: map[wire.Hash]struct{}{}, expiredMempool: map[uint64]map[wire.Hash]struct{}{}}
+	c01HdrReg, c01HdrIDs, c01IDSeeds = nil, nil, nil
+	for i := 0; i < 4; i++ {
+		var id wire.Hash
+		copy(id[:], rt.NondetBytes(32))
+		for _, o := range c01IDSeeds {
+			rt.Assume(o != id)
+		}
+		c01IDSeeds = append(c01IDSeeds, id)
+	}
+	H := rt.NondetU64()
+	rt.Assume(H >= 2 && H < 1<<56)
+	P := c01Block(H-1, wire.Hash{}, 10)
+	A := c01Block(H, P.BlockHash(), 11)
+	O1 := c01Block(H+1, A.BlockHash(), 1001)
+	N1 := c01Block(H+1, A.BlockHash(), 2001)
+	rt.Assume(O1.BlockHash() != N1.BlockHash())
+	metas := []txmgr.BlockMeta{c01Meta(P), c01Meta(A)}
+	st.VerifSetSyncedChain(metas)
+	h.bestBlock = metas[1]
+	node.base, node.best, node.blocks = H-1, []*wire.MsgBlock{P, A, N1}, []*wire.MsgBlock{P, A, N1, O1}
+	err := h.processConnectedBlock(O1)
+	rt.Assert(err != nil, "stale-tip-refused")
+	aHash := A.BlockHash()
+	rt.Assert(h.bestBlock.Hash == aHash && h.bestBlock.Height == H && st.VerifSyncRecords() == 3 && st.VerifSyncedRecord(H+1) == nil, "stale-tip-changes-nothing")
+	err = h.processConnectedBlock(N1)
+	rt.Assert(err == nil, "best-chain-tip-accepted-afterwards")
+	n1 := N1.BlockHash()
+	r := st.VerifSyncedRecord(H + 1)
+	rt.Assert(h.bestBlock.Hash == n1 && len(r) == 36 && bytes.Equal(r[:32], n1[:]), "recorded-chain-follows-the-best-chain")
+	rt.Reach("end")
+}
